@@ -43,32 +43,59 @@ theorem lit_set_a : lit "&set=a." = '&' :: setK ++ '=' :: aDot := by decide
 
 theorem isDotSeg_of_segOk {s : Str} (h : segOk s = true) : isDotSeg s = false := (segOk_spec h).2.2.1
 
-/-- the builders' path-only urls -/
-theorem urljoin_base_slashed (s : Str) (ss : List Str) (hok : ∀ x ∈ s :: ss, segOk x = true) :
+theorem slashed_append_single (init : List Str) (x : Str) : slashed (init ++ [x]) = slashed init ++ '/' :: x := by
+  induction init with
+  | nil => simp [slashed]
+  | cons s ss ih => simp [slashed, ih]
+
+/-- the builders' path-only urls: every segment good, the last one `lastSemiOk` -/
+theorem urljoin_base_slashed (s : Str) (ss : List Str) (hok : ∀ x ∈ s :: ss, segOk x = true)
+    (hsemi : lastSemiOk ((s :: ss).getLast (List.cons_ne_nil _ _)) = true) :
     urljoin BASE (slashed (s :: ss)) = some (BASE ++ slashed (s :: ss)) := by
   have hs := segOk_spec (hok s (by simp))
-  have h := urljoin_base_abs (s ++ slashed ss) [] (by
+  have hdl : (s :: ss).dropLast ++ [(s :: ss).getLast (List.cons_ne_nil _ _)] = s :: ss :=
+    List.dropLast_concat_getLast _
+  generalize hinit : (s :: ss).dropLast = init at hdl
+  generalize hlast : (s :: ss).getLast (List.cons_ne_nil _ _) = last at hdl hsemi
+  have hlok : segOk last = true := hok last (by rw [← hdl]; simp)
+  have hiok : ∀ x ∈ init, segOk x = true := fun x hx => hok x (by rw [← hdl]; simp [hx])
+  obtain ⟨x, y, hpar, hre0, hdot, hx⟩ := params_of_last (slashed init) last (segOk_not_mem_slash hlok) hsemi
+  have hsl : slashed (s :: ss) = slashed init ++ '/' :: last := by rw [← hdl, slashed_append_single]
+  have hsl' : '/' :: (s ++ slashed ss) = slashed init ++ '/' :: last := by rw [← hsl]; rfl
+  have h := urljoin_base_abs_params (s ++ slashed ss) [] (slashed init ++ '/' :: x) y (by
       cases hx : s with
       | nil => exact absurd hx hs.1
       | cons c cs =>
         have : c ≠ '/' := (segChar_spec (hs.2.1 c (by simp [hx]))).1
         simpa using this)
     (slashed_pathChar (s :: ss) hok)
-    (by
-      have := slashed_no_semi (s :: ss) hok
-      intro hm; exact this (by simp only [slashed, List.mem_cons]; right; exact hm))
     (by simp)
+    (by rw [hsl']; exact hpar)
     (by
-      intro x hx
-      have e : '/' :: (s ++ slashed ss) = '/' :: join ['/'] (s :: ss) := by
-        have := slashed_eq_join (s :: ss) (by simp)
-        simpa [slashed] using this
+      rw [hsl', ← hre0]
+      by_cases hy : y = []
+      · simp [hy]
+      · simp [hy])
+    (by
+      rcases slashed_head init with h0 | ⟨t, ht⟩
+      · rw [h0]; simp [startsWith, List.isPrefixOf]
+      · rw [ht]; simp [startsWith, List.isPrefixOf])
+    (by
+      intro z hz
+      have hxs : '/' ∉ x := fun hm => segOk_not_mem_slash hlok (hx _ hm)
+      have e : slashed init ++ '/' :: x = '/' :: join ['/'] (init ++ [x]) := by
+        rw [← slashed_append_single, slashed_eq_join _ (by simp)]
       rw [e, splitOn_cons_sep,
-        splitOn_join '/' (s :: ss) (by simp) (fun y hy => segOk_not_mem_slash (hok y hy))] at hx
-      simp only [List.mem_cons] at hx
-      rcases hx with hx | hx
-      · rw [hx]; decide
-      · exact isDotSeg_of_segOk (hok x (by simpa using hx)))
+        splitOn_join '/' (init ++ [x]) (by simp) (by
+          intro w hw
+          rcases List.mem_append.mp hw with hw | hw
+          · exact segOk_not_mem_slash (hiok w hw)
+          · simp only [List.mem_singleton] at hw; rw [hw]; exact hxs)] at hz
+      simp only [List.mem_cons, List.mem_append, List.not_mem_nil, or_false] at hz
+      rcases hz with hz | hz | hz
+      · rw [hz]; decide
+      · exact isDotSeg_of_segOk (hiok z hz)
+      · rw [hz]; exact hdot)
   simpa [slashed, qs] using h
 
 theorem parse_canonical_slashed (s : Str) (ss : List Str) (rel : Bool) (hok : ∀ x ∈ s :: ss, segOk x = true) :
